@@ -51,6 +51,13 @@ func runC20(p *Prog, r *Report) {
 	c20Run(p, r)
 	c20Validate(p, r)
 	c20Index(p, r)
+	r.Rule("D5-intact", "lists of findings and packages are never shortened while the result is assembled")
+	resultListsNeverShrink(p, r, "D5-intact", ".", "detector", "inventory", "packageindex")
+	// the index's getters hand out every package of the buckets they read: index expressions in
+	// bounds, and no copy into a destination that may be too short (copy truncates silently)
+	for _, fn := range p.FuncsIn("packageindex") {
+		checkBounds(p, r, "D5-intact", fn, nil)
+	}
 }
 
 func c20Scan(p *Prog, r *Report) {
